@@ -35,6 +35,8 @@ def gen_project(seed, nfiles=None, with_header=None, with_inline=None, severitie
     located = []     # (file, line, id, severity)
     supprs = []      # structural description of every suppression: id, file, line (-1 none), inline
     hdr_lines = []
+    asym = False
+    asym_line = 0
     if with_header:
         h = "#ifndef H_H\n#define H_H\n"
         line = 3
@@ -59,6 +61,18 @@ def gen_project(seed, nfiles=None, with_header=None, with_inline=None, severitie
             if block:
                 h += "// cppcheck-suppress-end arrayIndexOutOfBounds\n"
                 line += 1
+        # (own random stream) code of the header that only SOME of the including files compile: every file defines HXV, with
+        # the value 1 or 2, and the header has a suppressed finding under `#if HXV == 2`. The translation units then learn
+        # different things about the same inline suppression (matched in one, not even consulted in another), which the
+        # executors have to merge
+        asym = rnd2.random() < 0.45
+        if asym:
+            h += "#if HXV == 2\n// cppcheck-suppress arrayIndexOutOfBounds\n"
+            line += 2
+            supprs.append({"id": "arrayIndexOutOfBounds", "file": "h.h", "line": line, "inline": True, "glob": False})
+            h += "static int hx(void) { int g[2]; g[5] = 0; return g[0]; }\n#endif\n"
+            asym_line = line
+            line += 2
         h += "#endif\n"
         files["h.h"] = h
     n = 0
@@ -68,6 +82,12 @@ def gen_project(seed, nfiles=None, with_header=None, with_inline=None, severitie
         text = "#include <stdlib.h>\n"
         line = 2
         if with_header and rnd.random() < 0.75:
+            if asym:
+                hxv = rnd2.choice([1, 2])
+                text += "#define HXV %d\n" % hxv
+                line += 1
+                if hxv == 2 and ("h.h", asym_line, HEADER_SNIPPET[0], HEADER_SNIPPET[1]) not in located:
+                    located.append(("h.h", asym_line, HEADER_SNIPPET[0], HEADER_SNIPPET[1]))
             text += '#include "h.h"\n'
             line += 1
         k = rnd.choice([0, 1, 2, 2, 3])
